@@ -141,7 +141,7 @@ func runC13(c *fw.C) {
 		if noop {
 			c.Obs("noop_batches", 1)
 			for i := r.Intn(4); i > 0; i-- {
-				switch r.Intn(8) {
+				switch r.Intn(9) {
 				case 0:
 					if s.M.Len() > 0 {
 						kinds.GetTyped(e.Ctx, s.T, cfg.VK, s.M.Keys[r.Intn(s.M.Len())])
@@ -174,6 +174,11 @@ func runC13(c *fw.C) {
 						j := r.Intn(s.M.Len())
 						s.T.Delete(e.Ctx, s.M.Keys[j], diffValOf(cfg.VK, r, s.M.Vals[j]))
 						batch = append(batch, "delete-wrong-value")
+					}
+				case 7:
+					if t2, err := s.T.Clone(e.Ctx); err == nil { // carry on with a clone: still nothing modified
+						s.T = &t2
+						batch = append(batch, "clone-and-switch")
 					}
 				default:
 					if t, err := e.Load(v0); err == nil && !s.T.IsDirty() {
